@@ -12,6 +12,7 @@ import (
 	"fmt"
 	"runtime"
 	"runtime/debug"
+	"strings"
 	"sync"
 	"syscall"
 	"time"
@@ -67,6 +68,74 @@ func (g *gate) signal() {
 	}
 }
 
+// waitTimeout waits for a signal for at most ms milliseconds.
+//
+//go:norace
+func (g *gate) waitTimeout(ms int) bool {
+	type pollfd struct {
+		fd      int32
+		events  int16
+		revents int16
+	}
+	for {
+		p := pollfd{fd: int32(g.r), events: 1} // POLLIN
+		ts := syscall.Timespec{Sec: int64(ms / 1000), Nsec: int64(ms%1000) * 1e6}
+		n, _, e := syscall.Syscall6(syscall.SYS_PPOLL, uintptr(unsafe.Pointer(&p)), 1, uintptr(unsafe.Pointer(&ts)), 0, 0, 0)
+		if e == syscall.EINTR {
+			continue
+		}
+		if e != 0 {
+			panic(e)
+		}
+		if n == 0 {
+			return false
+		}
+		g.wait()
+		return true
+	}
+}
+
+// taskBlockedForGood: the goroutine of the running task is blocked (not at a hook: it has not come back to
+// the scheduler) and no goroutine executing library code is running, runnable or sleeping - nothing is left
+// that could wake it. Returns a description of where it is blocked.
+//
+//go:norace
+func taskBlockedForGood(goid int64) (string, bool) {
+	n := runtime.Stack(stackBuf, true)
+	for n == len(stackBuf) {
+		stackBuf = make([]byte, 2*len(stackBuf))
+		n = runtime.Stack(stackBuf, true)
+	}
+	active := func(st string) bool {
+		return st == "running" || st == "runnable" || st == "syscall" || st == "sleep" || st == "IO wait"
+	}
+	where, blocked := "", false
+	for _, g := range parseStacks(stackBuf[:n]) {
+		lib := ""
+		for _, f := range g.frames {
+			if strings.HasPrefix(f, "berty.tech/go-ipfs-log") {
+				lib = f
+				break
+			}
+		}
+		if g.id == goid {
+			if active(g.state) {
+				return "", false
+			}
+			blocked = true
+			if i := strings.LastIndex(lib, "("); i > 0 {
+				lib = lib[:i]
+			}
+			where = fmt.Sprintf("%s (goroutine state: %s)", lib, g.state)
+			continue
+		}
+		if lib != "" && active(g.state) && !hasFrame(g, "sim.(*gate).wait") { // (tasks parked at a hook sit in a pipe read)
+			return "", false
+		}
+	}
+	return where, blocked
+}
+
 const (
 	stReady = iota
 	stWantLock
@@ -87,6 +156,7 @@ type task struct {
 	pending  bool // has asked for its lock and not got it yet
 	pan      *fetchPanic
 	prio     int
+	stuck    bool // blocked for good inside the library (verdict reached; its goroutine is abandoned)
 	// task-local results
 	ops    []*opRec
 	blocks []ipld.Node
@@ -294,7 +364,11 @@ func (s *sched) run() {
 		started := newGate()
 		s.wg.Add(1)
 		go func() {
-			defer s.wg.Done()
+			defer func() {
+				if !t.stuck {
+					s.wg.Done()
+				}
+			}()
 			defer func() {
 				// runs on normal return, on Goexit (abort) and on panic
 				if x := recover(); x != nil {
@@ -370,7 +444,35 @@ func (s *sched) run() {
 		s.lastIdx = t.id
 		s.cur = t
 		t.g.signal()
-		s.back.wait()
+		for seen := 0; !s.back.waitTimeout(1500); {
+			// the task has neither finished nor reached a scheduling point: it is computing, or it is blocked
+			// inside the library on something that is not one of the hooked locks
+			where, stuck := taskBlockedForGood(t.goid)
+			if !stuck {
+				seen = 0
+				continue
+			}
+			if seen++; seen < 3 {
+				continue
+			}
+			s.deadlock = true
+			s.deadMsg = fmt.Sprintf("%s never returns: blocked in %s with no goroutine left that could wake it; ", t.name, where)
+			Tainted.Store(true) // that goroutine (and what it holds) cannot be released
+			t.stuck = true
+			t.state = stDone
+			s.wg.Done()
+			s.cur = nil
+			for _, o := range s.tasks {
+				if o.state != stDone {
+					o.abort = true
+					s.cur = o
+					o.g.signal()
+					s.back.wait()
+					s.cur = nil
+				}
+			}
+			return
+		}
 		s.cur = nil
 		if t.state == stWantLock && t.failedAt == s.epoch {
 			s.lockWaits++
@@ -420,7 +522,15 @@ func RunTasks(r *Run, names []string, fns []func(t *task), lockNames map[*sync.R
 	S = s
 	s.run()
 	s.wg.Wait() // the only TSan-visible edge: finished run -> result inspection
-	S = nil
+	abandoned := false
+	for _, t := range s.tasks {
+		abandoned = abandoned || t.stuck
+	}
+	if !abandoned {
+		// (an abandoned task goroutine has no happens-before edge to this point: the global stays as it is,
+		// the worker process is replaced after this run)
+		S = nil
+	}
 	s.back.close()
 	for _, t := range s.tasks {
 		t.g.close()
